@@ -54,7 +54,19 @@ pub fn generate(run_seed: u64, corpus: &Corpus, sw: &Swarm, i: u64, exhaustive: 
         let n_env = W5_ENVS.len() as u64;
         let (kind, cl) = W5_ENVS[(i % n_env) as usize];
         let client = client_for(cl);
-        // last block: every token pair repeated n times, through iterate (str) and load (buffered)
+        // last block: ordered pairs of edge-value escapes in a double-quoted scalar, iterate + two loaders
+        let esc = gen::escape_pair_count() * 3;
+        if i >= exhaustive - esc {
+            let j = i - (exhaustive - esc);
+            let (input, client) = match j % 3 {
+                0 => (InputKind::Str, Client::Iterate),
+                1 => (InputKind::Buffered, Client::Loader(0, 0)),
+                _ => (InputKind::Ring(8, Policy::PushBack), Client::Loader(3, 0)),
+            };
+            return Case { prop: "C01".into(), gen: "E-escape-pairs".into(), text: gen::nth_escape_pair(j / 3), input, client, ..Case::default() };
+        }
+        let exhaustive = exhaustive - esc;
+        // before it: every token pair repeated n times, through iterate (str) and load (buffered)
         let rep = gen::repeat_count() * 2;
         if i >= exhaustive - rep {
             let j = i - (exhaustive - rep);
